@@ -8,15 +8,15 @@ git checkout -q -- . ; git apply "$D/patch.diff" || { echo "APPLY-FAILED"; exit 
 cargo build --offline -q -p brush-shell 2>/dev/null || { echo "BUILD-FAILED"; git checkout -q -- .; exit 1; }
 run_demo() {
   case "$MODE" in
-    env) BRUSH="$WT/target/debug/brush" timeout 60 bash "$D/demo.sh" >/tmp/demo_out.txt 2>&1 ;;
-    stdin) timeout 30 "$WT/target/debug/brush" < "$D/demo.sh" >/tmp/demo_out.txt 2>&1 ;;
-    file) timeout 30 "$WT/target/debug/brush" "$D/demo.sh" >/tmp/demo_out.txt 2>&1 ;;
+    env) BRUSH="$WT/target/debug/brush" timeout 60 bash "$D/demo.sh" >/tmp/demo_out_$(basename "$WT").txt 2>&1 ;;
+    stdin) timeout 30 "$WT/target/debug/brush" < "$D/demo.sh" >/tmp/demo_out_$(basename "$WT").txt 2>&1 ;;
+    file) timeout 30 "$WT/target/debug/brush" "$D/demo.sh" >/tmp/demo_out_$(basename "$WT").txt 2>&1 ;;
   esac
   echo $?
 }
-echo "demo_with_change_rc=$(run_demo)"; tail -2 /tmp/demo_out.txt
-cargo nextest run --workspace --no-fail-fast --tool-config-file pb:/w/lib/nextest.toml --profile pb --test-threads 8 --offline >/tmp/confirm_suite.log 2>&1
+echo "demo_with_change_rc=$(run_demo)"; tail -2 /tmp/demo_out_$(basename "$WT").txt
+cargo nextest run --workspace --no-fail-fast --tool-config-file pb:/w/lib/nextest.toml --profile pb --test-threads 8 --offline >/tmp/confirm_suite_$(basename "$WT").log 2>&1
 python3 /verif/bin/baseline_compare.py "$WT/target/nextest/pb/junit.xml"
 git checkout -q -- .
 cargo build --offline -q -p brush-shell 2>/dev/null
-echo "demo_without_change_rc=$(run_demo)"; tail -1 /tmp/demo_out.txt
+echo "demo_without_change_rc=$(run_demo)"; tail -1 /tmp/demo_out_$(basename "$WT").txt
